@@ -559,3 +559,68 @@ def gen_qcow_case(tag, cid, base, path):
         pp.append((20, struct.pack(">I", 31)))
         descr.append(("qcow_hdr", "cluster_bits", "special", "->31"))
     return {"cid": cid, "cls": "qcow", "base": base, "files": {"qcow": pp}, "truncate": trunc, "descr": descr}
+
+
+# ---------------------------------------------------------------------------------------
+# geometry-bearing superblock fields, with the superblock checksum put right (a
+# metadata_csum superblock with a wrong checksum is rejected before any field is used)
+
+SB_GEOM = [("s_inodes_count", 0, 4), ("s_blocks_count_lo", 4, 4), ("s_first_data_block", 20, 4),
+           ("s_log_block_size", 24, 4), ("s_log_cluster_size", 28, 4), ("s_blocks_per_group", 32, 4),
+           ("s_clusters_per_group", 36, 4), ("s_inodes_per_group", 40, 4), ("s_rev_level", 76, 4),
+           ("s_first_ino", 84, 4), ("s_inode_size", 88, 2), ("s_feature_compat", 92, 4),
+           ("s_feature_incompat", 96, 4), ("s_feature_ro_compat", 100, 4),
+           ("s_reserved_gdt_blocks", 206, 2), ("s_journal_inum", 224, 4), ("s_desc_size", 254, 2),
+           ("s_first_meta_bg", 260, 4), ("s_min_extra_isize", 348, 2), ("s_want_extra_isize", 350, 2),
+           ("s_blocks_count_hi", 336, 4), ("s_log_groups_per_flex", 372, 1), ("s_mmp_block", 360, 8),
+           ("s_usr_quota_inum", 576, 4), ("s_grp_quota_inum", 580, 4), ("s_backup_bgs0", 588, 4),
+           ("s_prj_quota_inum", 620, 4), ("s_orphan_file_inum", 640, 4), ("s_checksum_type", 373, 1),
+           ("s_encoding", 636, 2), ("s_def_hash_version", 252, 1), ("s_jnl_backup_type", 253, 1)]
+SB_GEOM_SPECIALS = {
+    "s_log_block_size": [0, 1, 2, 3, 6, 7, 16, 22, 31, 32, 0xFFFFFFFF],
+    "s_log_cluster_size": [0, 1, 2, 4, 6, 19, 20, 29, 31, 32, 0xFFFFFFFF],
+    "s_blocks_per_group": [0, 1, 7, 8, 9, 64, 256, 8192, 8193, 32768, 65528, 65536, 1 << 31, 0xFFFFFFFF],
+    "s_clusters_per_group": [0, 1, 7, 8, 256, 8192, 32768, 65536, 1 << 31, 0xFFFFFFFF],
+    "s_inodes_per_group": [0, 1, 7, 8, 9, 16, 2048, 65536, 1 << 20, 1 << 31, 0xFFFFFFFF, 0xFFFFFFF8],
+    "s_inode_size": [0, 1, 64, 96, 127, 128, 129, 192, 256, 512, 1024, 2048, 4096, 8192, 32768, 65535],
+    "s_desc_size": [0, 1, 16, 31, 32, 33, 48, 63, 64, 65, 128, 256, 1024, 2048, 32768, 65535],
+    "s_first_data_block": [0, 1, 2, 8191, 8192, 1 << 20, 0xFFFFFFFF],
+    "s_blocks_count_lo": [0, 1, 2, 8, 64, 1 << 20, 1 << 31, 0xFFFFFFFF],
+    "s_blocks_count_hi": [1, 2, 0xFFFF, 0xFFFFFFFF],
+    "s_inodes_count": [0, 1, 11, 12, 1 << 20, 1 << 31, 0xFFFFFFFF],
+    "s_first_ino": [0, 1, 2, 10, 11, 12, 1 << 16, 0xFFFFFFFF],
+    "s_rev_level": [0, 1, 2],
+    "s_reserved_gdt_blocks": [0, 1, 255, 256, 1024, 4096, 65535],
+    "s_first_meta_bg": [0, 1, 2, 1 << 16, 0xFFFFFFFF],
+    "s_log_groups_per_flex": [0, 1, 4, 16, 30, 31, 32, 63, 255],
+    "s_journal_inum": [0, 1, 2, 7, 8, 9, 11, 12, 0xFFFFFFFF],
+    "s_usr_quota_inum": [0, 2, 3, 4, 8, 12, 0xFFFFFFFF], "s_grp_quota_inum": [0, 2, 3, 4, 8, 12, 0xFFFFFFFF],
+    "s_prj_quota_inum": [0, 2, 3, 4, 8, 12, 0xFFFFFFFF], "s_orphan_file_inum": [0, 2, 8, 11, 12, 13, 0xFFFFFFFF],
+    "s_mmp_block": [0, 1, 2, 1 << 32, (1 << 64) - 1],
+    "s_min_extra_isize": [0, 1, 4, 28, 32, 128, 1024, 65535], "s_want_extra_isize": [0, 1, 4, 28, 32, 128, 1024, 65535],
+    "s_checksum_type": [0, 1, 2, 255], "s_def_hash_version": [0, 1, 2, 3, 4, 5, 6, 7, 255],
+    "s_encoding": [0, 1, 2, 65535], "s_backup_bgs0": [0, 1, 2, 0xFFFFFFFF],
+}
+_FEATURE_BITS = {"s_feature_compat": [0x4, 0x8, 0x10, 0x20, 0x200, 0x400, 0x1000],
+                 "s_feature_incompat": [0x2, 0x4, 0x8, 0x10, 0x40, 0x80, 0x100, 0x200, 0x400, 0x1000, 0x2000,
+                                        0x4000, 0x8000, 0x10000, 0x20000],
+                 "s_feature_ro_compat": [0x1, 0x2, 0x8, 0x10, 0x20, 0x40, 0x100, 0x200, 0x400, 0x1000, 0x2000,
+                                         0x4000, 0x8000, 0x10000]}
+
+
+def sb_geom_op(rng, img_path):
+    """-> (patches, descr) on the primary superblock of img_path"""
+    name, off, size = rng.choice(SB_GEOM)
+    sb = bytearray(rd(img_path, 1024, 1024))
+    v = int.from_bytes(sb[off:off + size], "little")
+    if name in _FEATURE_BITS:
+        nv, op = v ^ rng.choice(_FEATURE_BITS[name]), "flipfeature"
+    else:
+        nv, op = mut(rng, v, size, SB_GEOM_SPECIALS.get(name, ()), 0.6)
+    sb[off:off + size] = nv.to_bytes(size, "little")
+    patches = [(1024 + off, nv.to_bytes(size, "little"))]
+    ro = struct.unpack_from("<I", sb, 100)[0]
+    if ro & 0x400 and rng.random() < 0.85:
+        patches.append((1024 + 1020, struct.pack("<I", PC.crc32c(0xFFFFFFFF, bytes(sb[:1020])))))
+        op += "+csumfix"
+    return patches, ("sb_geom", name, op, "%#x->%#x" % (v, nv))
